@@ -186,6 +186,32 @@ inline bool isfinite(const symx::Sym &a) { return symx::isfinite(a); }
 inline bool isnan(const symx::Sym &a) { return symx::isnan(a); }
 inline bool isinf(const symx::Sym &a) { return symx::isinf(a); }
 inline std::string to_string(const symx::Sym &a) { return std::to_string(a.v); }
+// mixed-type helpers that compile for double operands (a literal next to a library scalar) must compile here too
+inline symx::Sym max(const symx::Sym &a, double b) { symx::Sym c(b); return (a < c) ? c : a; }
+inline symx::Sym max(double a, const symx::Sym &b) { symx::Sym c(a); return (c < b) ? b : c; }
+inline symx::Sym min(const symx::Sym &a, double b) { symx::Sym c(b); return (c < a) ? c : a; }
+inline symx::Sym min(double a, const symx::Sym &b) { symx::Sym c(a); return (b < c) ? b : c; }
+inline symx::Sym fmax(const symx::Sym &a, const symx::Sym &b) { return (a < b) ? b : a; }
+inline symx::Sym fmin(const symx::Sym &a, const symx::Sym &b) { return (b < a) ? b : a; }
+inline symx::Sym pow(const symx::Sym &a, int n) {
+  symx::Sym r(1.0);
+  for (int i = 0; i < (n < 0 ? -n : n); i++) r = r * a;
+  return n < 0 ? symx::Sym(1.0) / r : r;
+}
+inline symx::Sym pow(const symx::Sym &a, double e) {
+  if (e == (double)(int)e && e > -64 && e < 64) return pow(a, (int)e);
+  if (e == 0.5) return symx::sqrt(a);
+  std::fprintf(stderr, "symx: pow with non-integer exponent is not supported\n");
+  std::exit(4);
+}
+inline symx::Sym pow(const symx::Sym &a, const symx::Sym &e) {
+  if (e.id < 0) return pow(a, e.v);
+  std::fprintf(stderr, "symx: pow with symbolic exponent is not supported\n");
+  std::exit(4);
+}
+inline symx::Sym ceil(const symx::Sym &a) { symx::Sym f = symx::floor(-a); return -f; }
+inline bool signbit(const symx::Sym &a) { return a < symx::Sym(0.0); }
+inline symx::Sym hypot(const symx::Sym &a, const symx::Sym &b) { return symx::sqrt(a * a + b * b); }
 template <> struct numeric_limits<symx::Sym> {
   static constexpr bool is_specialized = true;
   static constexpr bool is_signed = true, is_integer = false, is_exact = false, has_infinity = true, has_quiet_NaN = true;
